@@ -285,11 +285,20 @@ func guidePos(seq [][]int, pos int, c curCall) int {
 	return pos
 }
 
-func cursorWalk(j *jobCtx, x Inst, maxSteps int) {
+func cursorWalk(j *jobCtx, x Inst, maxSteps int) { cursorWalkAt(j, x, maxSteps, -1) }
+
+// at >= 0: the iterator is created with RedBlackTree.IteratorAt(GetNode(key at position `at`))
+func cursorWalkAt(j *jobCtx, x Inst, maxSteps int, at int) {
 	var cur *cursor
 	var seq [][]int
 	fp0 := fullFP(x)
-	ci := invoke(Ev{"op": "Iterator", "kind": x.Kind()}, func() { cur, seq = makeCursor(x) })
+	ci := invoke(Ev{"op": "Iterator", "kind": x.Kind()}, func() {
+		cur, seq = makeCursor(x)
+		if at >= 0 {
+			t := x.Target().(*rbt.Tree[int, V])
+			cur = wrapKey(t.IteratorAt(t.GetNode(seq[at][0])))
+		}
+	})
 	base := Ev{"fam": "cur", "kind": x.Kind(), "cfg": x.Cfg(), "timeout": false, "obsbad": false}
 	ev := func(extra Ev) Ev {
 		e := Ev{}
@@ -301,6 +310,7 @@ func cursorWalk(j *jobCtx, x Inst, maxSteps int) {
 		}
 		return e
 	}
+	base["at"] = at
 	if ci.Panic || cur == nil {
 		emit(ev(Ev{"op": "NewIter", "rs": 1, "seq": [][]int{}, "keyed": false, "rev": false, "panic": true, "pmsg": ci.PMsg,
 			"out": ci.Out, "p": pred{Name: "true"}, "ret": false, "has": false, "key": 0, "val": 0, "idx": 0, "pure": true}))
@@ -312,7 +322,7 @@ func cursorWalk(j *jobCtx, x Inst, maxSteps int) {
 	n := len(seq)
 	covered := map[[2]int]bool{}
 	total := (n + 2) * len(calls)
-	pos := -1
+	pos := at
 	for step := 0; step < maxSteps && len(covered) < total; step++ {
 		// prefer a call not yet taken from this position; else move at random
 		pick := -1
@@ -457,6 +467,12 @@ func jobCursor(j *jobCtx) {
 			}
 			for w := 0; w < walks; w++ {
 				cursorWalk(j, x, 400)
+			}
+			// IteratorAt(node): a cursor that starts on an element (red-black tree only)
+			if t, ok := x.Target().(*rbt.Tree[int, V]); ok {
+				for at := 0; at < t.Size(); at++ {
+					cursorWalkAt(j, x, 60, at)
+				}
 			}
 		}
 	}
